@@ -4,6 +4,8 @@ import DimodProofs.C02Var
 import DimodProofs.C02Poly
 import DimodProofs.C02View
 import DimodProofs.C02Ising
+import DimodProofs.C02SampleSet
+import DimodProofs.C02Spin
 
 /-! # C02 — changing between spin and binary representation never changes any energy
 
@@ -104,6 +106,31 @@ theorem cqm_substitute_preserves_invariant {R : Type} [CommRing R] (m : CqmC R) 
     (m.substituteVariable v mult c).WF :=
   CqmC.WF_substituteVariable m hm v mult c
 
+/-- **`spin_to_binary` of a whole CQM** (the loop `for v in variables: if vartype(v) is SPIN: change_vartype(BINARY, v)` with the
+    generated pair): objective and every constraint left-hand side of the result take at `y` the value of the original at the
+    assignment that replaces every SPIN variable `u` by `2·y u − 1` and keeps the others — so every activity is preserved at the
+    converted sample `x = (s+1)/2`; sense, rhs, weight, penalty and the constraints' order are unchanged; every SPIN row of
+    the variable table becomes BINARY, all other rows keep their type -/
+theorem cqm_spin_to_binary (m : CqmC Rat) (hm : m.WF) (y : Nat → Rat) :
+    let r := m.spinToBinary
+    let isSpin := fun u => u ∈ m.spinsOf (List.range m.info.length)
+    let x := fun u => if isSpin u then 2 * y u - 1 else y u
+    r.obj.energyCpp y = m.obj.energyCpp x ∧ r.cons.length = m.cons.length ∧
+    (∀ i (hi : i < m.cons.length) (hi' : i < r.cons.length),
+      r.cons[i].e.energyCpp y = m.cons[i].e.energyCpp x ∧
+      r.cons[i].sense = m.cons[i].sense ∧ r.cons[i].rhs = m.cons[i].rhs ∧
+      r.cons[i].weight = m.cons[i].weight ∧ r.cons[i].quadPenalty = m.cons[i].quadPenalty) ∧
+    ∀ i, r.info[i]?.map (·.vt) = if isSpin i then some VT4.binary else m.info[i]?.map (·.vt) := by
+  have h := CqmC.spinToBinary_spec cqmTable m hm y
+  have hx : (fun u => if u ∈ m.spinsOf (List.range m.info.length) then cqmTable.toBinary.1 * y u + cqmTable.toBinary.2 else y u)
+      = (fun u => if u ∈ m.spinsOf (List.range m.info.length) then 2 * y u - 1 else y u) := by
+    funext u
+    split
+    · simp only [cqmTable, cqmToBinary]; ring
+    · rfl
+  simp only [hx] at h
+  exact h
+
 /-- the CQM's generated pairs are the same two affine maps -/
 theorem cqm_constants : cqmToBinary = (2, -1) ∧ cqmToSpin = (1/2, 1/2) ∧ qmToBinary = (2, -1) ∧ qmToSpin = (1/2, 1/2) := by
   simp only [cqmToBinary, cqmToSpin, qmToBinary, qmToSpin]; norm_num
@@ -139,6 +166,58 @@ theorem qubo_ising_energy {R : Type} [CommRing R] [DecidableEq R] (half quarter 
         + (quboToIsing half quarter Q offset).2.2
       = pairSum (fun v => half * (s v + 1)) Q + offset :=
   quboToIsing_energy half quarter hh hq Q offset s hs hQ
+
+/-! ## `to_ising` / `to_qubo` (read through the views) and sample sets -/
+
+/-- `to_ising_energy`: `h, J, offset = bqm.to_ising()` of a BINARY model (the `.spin` view's `linear`, `quadratic`, `offset`, with
+    the regenerated view factors) evaluates at every `s` to the model's energy at `x = (s + 1)/2` — offset included -/
+theorem to_ising_energy (m : QMB Rat) (hm : m.WF) (hns : ∀ u, m.Q u u = 0) (s : Nat → Rat) :
+    evalR m.n (QMB.viewOff viewSpinOverBinary m) (QMB.viewL viewSpinOverBinary m)
+        (fun u w => if w ≤ u then QMB.viewQ viewSpinOverBinary m u w else 0) s
+      = m.energy (fun u => (s u + 1) / 2) :=
+  QMB.to_ising_energy m hm hns s
+
+/-- `to_qubo_energy`: `Q, offset = bqm.to_qubo()` of a SPIN model (interactions, and linear biases on the diagonal, through the
+    `.binary` view) evaluates at every binary `x` to the model's energy at `s = 2x − 1` — offset included -/
+theorem to_qubo_energy (m : QMB Rat) (hm : m.WF) (hns : ∀ u, m.Q u u = 0) (x : Nat → Rat) (hx : ∀ u, x u * x u = x u) :
+    QMB.viewOff viewBinaryOverSpin m + ∑ u ∈ Finset.range m.n, QMB.viewL viewBinaryOverSpin m u * x u * x u
+        + ∑ u ∈ Finset.range m.n, ∑ w ∈ Finset.range m.n,
+            (if w ≤ u then QMB.viewQ viewBinaryOverSpin m u w else 0) * x u * x w
+      = m.energy (fun u => 2 * x u - 1) :=
+  QMB.to_qubo_energy m hm hns x hx
+
+/-- `sampleset_changeVartype_rows`: `SampleSet.change_vartype(vartype, energy_offset)`: requested vartype, every value converted
+    (`2x − 1` / `(s + 1)/2`, identity for an equal vartype), every energy raised by exactly `energy_offset` -/
+theorem sampleset_changeVartype_rows {R : Type} [Field R] [DecidableEq R] (s : SSet R) (target : VT) (off : R) :
+    (s.changeVartype target off).vt = target ∧
+    (s.changeVartype target off).energy = s.energy.map (· + off) ∧
+    (s.changeVartype target off).rows
+      = if target = s.vt then s.rows
+        else match target with
+          | .spin => s.rows.map (·.map fun x => two * x - 1)
+          | .binary => s.rows.map (·.map fun x => (x + 1) / two) :=
+  SSet.changeVartype_spec s target off
+
+/-- a sample set that is still pending when `change_vartype` is called: the deferred result is the direct call on the resolved
+    set with the *same* arguments (vartype and energy offset). (Definitional on the model; the run compares the real
+    future-backed path with it.) -/
+theorem sampleset_changeVartype_deferred {R : Type} [Field R] [DecidableEq R] (pending : Unit → SSet R) (target : VT) (off : R) :
+    SSet.changeVartypeDeferred pending target off () = (pending ()).changeVartype target off :=
+  SSet.changeVartypeDeferred_spec pending target off
+
+/-- there and back with opposite offsets restores samples and energies -/
+theorem sampleset_changeVartype_roundtrip {R : Type} [Field R] [DecidableEq R] (s : SSet R) (h2 : (two : R) ≠ 0)
+    (other : VT) (hne : other ≠ s.vt) (off : R) :
+    ((s.changeVartype other off).changeVartype s.vt (-off)).rows = s.rows ∧
+    ((s.changeVartype other off).changeVartype s.vt (-off)).energy = s.energy :=
+  SSet.changeVartype_roundtrip s h2 other hne off
+
+/-- converted samples are consistent with the converted model: energies computed by the converted BQM on the converted rows are
+    the original energies -/
+theorem sampleset_bqm_consistent (m : Bqm Rat) (hm : m.WF) :
+    (m.vt = .spin → ∀ s : Nat → Rat, (m.changeVartype .binary).qb.energy (fun u => (s u + 1) / two) = m.qb.energy s) ∧
+    (m.vt = .binary → ∀ x : Nat → Rat, (m.changeVartype .spin).qb.energy (fun u => two * x u - 1) = m.qb.energy x) :=
+  ⟨fun h s => sampleset_bqm_consistent_toBinary m hm h s, fun h x => sampleset_bqm_consistent_toSpin m hm h x⟩
 
 /-! ## views: reads and writes through `.spin` / `.binary` = convert, edit, convert back
 
